@@ -135,6 +135,22 @@ def fn (args : List String) : String :=
       let (a, b, c) := state_states st (BitVec.ofNat 64 head)
       s!"{a.toNat} {b.toNat} {c.toNat}"
     | _, _, _ => "bad-op"
+  | ["padlen", n] => match n.toNat? with
+    | some n => toString (padLen (BitVec.ofNat 64 n)).toInt
+    | none => "bad-op"
+  | ["decdict", c] => match c.toNat? with
+    | some c => let (n, e) := DecodeDictCap (BitVec.ofNat 8 c); s!"{n.toInt} {errName e}"
+    | none => "bad-op"
+  | ["encdict", n] => match n.toNat? with
+    | some n => match EncodeDictCap 64 (BitVec.ofNat 64 n) with
+      | .ok c => toString c.toNat
+      | .panic m => "panic:" ++ m
+      | .fuel => "fuel"
+    | none => "bad-op"
+  | ["uvarint", h] => match readUvarint 64 { inp := unhexList h } with
+    | .ok (x, n, e, r) => s!"{x.toNat} {n.toInt} {errName e} {r.inp.length}"
+    | .panic m => "panic:" ++ m
+    | .fuel => "fuel"
   | _ => "bad-op"
 
 def handle (args : List String) : String :=
